@@ -13,6 +13,7 @@
 /*SUMMARY
 Contains the Decoder Loop Filtering related functions*/
 
+#include "EbVerifHooks.h"
 #include "EbDefinitions.h"
 #include "EbUtility.h"
 
@@ -727,7 +728,11 @@ void dec_loop_filter_row(EbDecHandle *dec_handle_ptr, EbPictureBufferDesc *recon
         /* Top-Right Sync*/
         if (y_sb_index) {
             while (*sb_lf_completed_in_prev_row < MIN((x_sb_index + 2), pic_width_in_sb - 1))
+#ifdef SVT_AV1_VERIF
+                SVT_VERIF_SPIN();
+#else
                 ;
+#endif
         }
         /*LF function for a SB*/
         dec_loop_filter_sb(dec_handle_ptr,
